@@ -2,7 +2,17 @@
 node table of xpgen.build_nodes. It is the oracle of C02: independent of the library and of the
 Coq model of the library. Values: bool | float | str | list of node ids (document order) | NS nodes
 as ('ns', element id, prefix) tuples. `units=True` switches the string functions to UTF-16 code
-units (the library's reading, known finding K6) so that the oracle can tell that deviation apart."""
+units (the library's reading, known finding K6) so that the oracle can tell that deviation apart.
+`k21=True` switches the namespace axis to known finding K21, exactly as worded there: the axis returns,
+per prefix in scope on the element, the NEAREST xmlns declaration attribute (an ordinary node of the
+table, kind 'nsdecl': owned by the declaring element, shared by every element in the declaration's
+scope, numbered like an attribute; xmlns="" undeclares the default namespace and contributes no node;
+the xml prefix is the xmlns:xml attribute xpgen.build_nodes puts on the document element, as the
+library's tree builder does).  Everything else about such a node follows from its being that
+attribute-like node: parent / ancestors / following / preceding = those of an attribute of the declaring
+element, document order = its number, name() and local-name() = the declared prefix ('' for xmlns),
+namespace-uri() = '', string-value = the URI, a union keeps one copy.  Written from the finding's text
+(a top-down in-scope environment), not from XPath::findNamespace's bottom-up bookkeeping."""
 import math, re
 from decimal import Decimal
 from fractions import Fraction
@@ -45,8 +55,9 @@ def xround(x):
 
 
 class Ref:
-    def __init__(self, nodes, variables=None, units=False, negzero=False, ids=None):
+    def __init__(self, nodes, variables=None, units=False, negzero=False, ids=None, k21=False):
         self.nodes = nodes
+        self.k21 = k21              # known finding K21: see the module comment
         # unique IDs (section 5.2.1): value -> element, from the attribute types the GENERATOR declared in the
         # DTD (xpgen.id_table); None = the document has no DTD, no element has a unique ID
         self.ids = ids or {}
@@ -189,6 +200,8 @@ class Ref:
         if ax == "namespace":
             if nd.kind != "elem":
                 return [], False
+            if self.k21:
+                return self.k21_decls(n), False
             out = []
             for p, u in sorted(nd.nsenv.items()):
                 if p == "" and u == "":
@@ -196,6 +209,32 @@ class Ref:
                 out.append(("ns", n, p, u))
             return out, False
         raise ValueError(ax)
+
+    @staticmethod
+    def k21_prefix(nd):
+        """the prefix an xmlns declaration attribute declares ('' for the default namespace)"""
+        return "" if nd.qname == "xmlns" else nd.qname.split(":", 1)[1]
+
+    def k21_decls(self, n):
+        """K21 mode: the declaration attributes in scope on element n - per prefix the nearest one, found by
+        carrying the environment prefix -> attribute from the document element down to n (an inner declaration
+        of a prefix replaces the outer one, xmlns="" removes the default); document order"""
+        chain = []
+        x = self.nodes[n]
+        while x is not None and x.kind == "elem":
+            chain.append(x)
+            x = x.parent
+        env = {}
+        for el in reversed(chain):
+            for a in el.attrs:
+                if a.kind != "nsdecl":
+                    continue
+                p = self.k21_prefix(a)
+                if p == "" and a.value == "":
+                    env.pop("", None)
+                else:
+                    env[p] = a.id
+        return sorted(env.values())
 
     def test(self, ax, t, n):
         if isinstance(n, tuple):
@@ -217,6 +256,13 @@ class Ref:
             return nd.kind == "pi" and (t[1] is None or nd.qname == t[1])
         _, ns, local = t
         principal = "attr" if ax == "attribute" else ("nsnode" if ax == "namespace" else "elem")
+        if self.k21 and ax == "namespace":
+            # K21 mode: the principal node type of the namespace axis is the declaration attribute; a name test
+            # compares the declared prefix (2.3: the local part of a namespace node's expanded-name is the prefix,
+            # its namespace URI is null)
+            if nd.kind != "nsdecl":
+                return False
+            return ns is None and (local is None or self.k21_prefix(nd) == local)
         if nd.kind != principal:
             return False
         if local is None:
@@ -380,6 +426,9 @@ class Ref:
             if isinstance(x, tuple):
                 return {"name": x[2], "local-name": x[2], "namespace-uri": ""}[name]
             nd = self.nodes[x]
+            if self.k21 and nd.kind == "nsdecl":
+                p = self.k21_prefix(nd)
+                return {"name": p, "local-name": p, "namespace-uri": ""}[name]
             if nd.kind in ("elem", "attr"):
                 return {"name": nd.qname, "local-name": nd.local, "namespace-uri": nd.uri}[name]
             if nd.kind == "pi":
